@@ -10,5 +10,6 @@ func TestWorld(t *testing.T) {
 	simkit.Main(t, "FE", map[string]simkit.PropertyFn{
 		"C42": runC42,
 		"C43": runC43,
+		"C44": runC44,
 	})
 }
